@@ -4,8 +4,14 @@ package main
 
 import (
 	"bufio"
+	"bytes"
+	"encoding/hex"
 	"encoding/json"
 	"os"
+	"path/filepath"
+	"regexp"
+	"strconv"
+	"strings"
 
 	"github.com/sandover/ergo/internal/ergo"
 )
@@ -15,6 +21,9 @@ func extra(args []string) bool {
 	switch args[0] {
 	case "serve":
 		serve()
+		return true
+	case "fn-storage":
+		fnStorage(argU(args, 1, 1), int(argU(args, 2, 500)))
 		return true
 	}
 	return false
@@ -56,5 +65,98 @@ func serve() {
 			emit(J{"err": "bad op"})
 		}
 		out.Flush()
+	}
+}
+
+func argU(args []string, i int, def uint64) uint64 {
+	if len(args) > i {
+		if n, err := strconv.ParseUint(args[i], 10, 64); err == nil {
+			return n
+		}
+	}
+	return def
+}
+
+var lineNoRe = regexp.MustCompile(`:(\d+): (invalid JSON|git conflict markers)`)
+
+func readAnswer(path string) J {
+	evs, err := ergo.VerifReadEvents(path)
+	if err != nil {
+		m := err.Error()
+		if strings.Contains(m, "event line too long") {
+			return J{"err": "too_long"}
+		}
+		if mm := lineNoRe.FindStringSubmatch(m); mm != nil {
+			n, _ := strconv.Atoi(mm[1])
+			return J{"err": "bad_line", "line": n, "names_file": strings.HasPrefix(m, path)}
+		}
+		return J{"err": "other:" + m}
+	}
+	return J{"events": ergo.VerifCanonEvents(evs)}
+}
+
+// fnStorage: byte-level files → readEvents, then appendEvents on the same file → bytes afterwards.
+func fnStorage(seed uint64, n int) {
+	r := &rng{s: seed}
+	dir, _ := os.MkdirTemp("", "ergo-verif-fs-")
+	defer os.RemoveAll(dir)
+	path := filepath.Join(dir, "plans.jsonl")
+	junk := [][]byte{[]byte("<<<<<<< HEAD"), []byte("======="), []byte("{\"type\":\"state\",\"ts\":\"x\",\"data\""), []byte("   "), []byte("\t"), []byte("null"), []byte("42"),
+		[]byte("[]"), []byte("{}"), []byte("{\"type\":5}"), []byte("\xff\xfe"), []byte("{\"type\":\"claim\",\"ts\":\"\",\"data\":{\"id\":\"A\"}} trailing"), []byte("\r"), []byte(" {\"type\":\"x\"} \r")}
+	for i := 0; i < n; i++ {
+		evs := genEvents(r)
+		var file []byte
+		for _, e := range evs {
+			b, _ := json.Marshal(e)
+			switch c := r.n(100); {
+			case c < 6:
+				file = append(file, pick(r, junk)...)
+				file = append(file, '\n')
+			case c < 9:
+				file = append(file, '\n')
+			case c < 11:
+				b = append(b, '\r')
+			}
+			file = append(file, b...)
+			file = append(file, '\n')
+		}
+		switch c := r.n(100); {
+		case c < 30 && len(file) > 0: // torn at a random byte
+			file = file[:r.n(len(file))]
+		case c < 40 && len(file) > 0: // final newline missing
+			file = file[:len(file)-1]
+		case c < 45:
+			file = append(file, pick(r, junk)...)
+		case c < 48 && len(file) > 3: // bit flip
+			file[r.n(len(file))] ^= 1 << uint(r.n(8))
+		}
+		os.WriteFile(path, file, 0644)
+		// classification of every distinct physical line by the real decoder
+		classes := J{}
+		for _, ln := range bytes.Split(file, []byte{'\n'}) {
+			for _, v := range [][]byte{ln, bytes.TrimSuffix(ln, []byte{'\r'})} {
+				classes[hex.EncodeToString(v)] = ergo.VerifClassifyLine(v)
+			}
+		}
+		ans := J{"read": readAnswer(path)}
+		// now append a batch with the real writer
+		batch := genEvents(r)
+		if len(batch) > 3 {
+			batch = batch[:3]
+		}
+		enc := []J{}
+		for _, e := range batch {
+			b, _ := json.Marshal(e)
+			enc = append(enc, J{"hex": hex.EncodeToString(b), "event": ergo.VerifCanonEvent(e)})
+			classes[hex.EncodeToString(b)] = ergo.VerifClassifyLine(b)
+		}
+		if err := ergo.VerifAppendEvents(path, batch); err != nil {
+			ans["append_err"] = err.Error()
+		}
+		after, _ := os.ReadFile(path)
+		ans["after"] = hex.EncodeToString(after)
+		ans["read_after"] = readAnswer(path)
+		req := J{"op": "storage", "tag": i, "file": hex.EncodeToString(file), "classes": classes, "limit": 10 * 1024 * 1024, "append": enc}
+		emit(J{"req": req, "go": ans})
 	}
 }
